@@ -795,6 +795,10 @@ O(id='xer_whitespace_span', props=['C03', 'C04', 'C19'], entry='h_xer_whitespace
 O(id='xer_check_tag', props=['C03', 'C04', 'C19'], entry='h_xer_check_tag', harness='harness/h_xer_ws.c', units=[SK + 'xer_decoder.c'], link=[SK + 'xer_decoder.c'],
   include=['contracts/xer_decoder.h'], enforce=['xer_check_tag'], loops=True, functions=['xer_check_tag'], backends=['sat', 'cvc5'], min_props=15, timeout=600)
 
+O(id='pxml_parse', props=['C04', 'C19'], entry='h_pxml_parse', harness='harness/h_pxml.c', units=[SK + 'xer_support.c'], link=[SK + 'xer_support.c'],
+  include=['contracts/xer_support.h'], enforce=['pxml_parse'], loops=True, functions=['pxml_parse'], fp_restrict=[(r'::cb$', ['tok_cb'])], backends=['sat', 'cvc5'], min_props=15, timeout=900,
+  trusted=['token callback: harness stub without side effects, arbitrary return value'])
+
 for _o in OBLIGATIONS:
     if _o.get('enforce') and _o.get('kind') in ('enforce', 'width') and _o.get('tier') == 'quick' and 'C19' not in _o['props']:
         _o['props'] = _o['props'] + ['C19']
